@@ -12,10 +12,14 @@ import (
 // ---------------------------------------------------------------------------------------------
 
 var UStr = []string{"", "a", "A", "ab", "aB", "b", "Bob", "bob", "10", "9", "3", "3.5", "x y", "-1", "2500000.5", "0.00005"}
-var UInt = []int64{0, 1, 2, 3, 9, 10, -1, -7, 1 << 40, math.MaxInt32 + 1, 1<<53 + 1, math.MaxInt64, math.MinInt64 + 1}
+var UInt = []int64{0, 1, 2, 3, 9, 10, -1, -7, 1 << 40, math.MaxInt32 + 1, 1<<53 + 1, math.MaxInt64, math.MinInt64 + 1,
+	// neighbours above 2^53, where float64 can no longer tell integers apart
+	1 << 53, 1<<53 + 2, math.MaxInt64 - 1}
 var UInt32 = []int64{0, 1, 2, 3, 9, 10, -1, math.MaxInt32, math.MinInt32}
 var UFloat = []float64{0, math.Copysign(0, -1), 0.5, 1, 2.5, 3, 3.5, 10, -1.5, 1e3, 1e-3, 9007199254740992, 2500000.5, 0.00005}
-var UTime = []string{"0001-01-01T00:00:00Z", "2020-01-01T00:00:00Z", "2020-01-01T01:00:00+01:00", "2020-01-01T00:00:00.000000001Z", "2021-06-15T12:30:00.5Z", "1999-12-31T23:59:59-05:00", "1960-02-29T10:00:00Z"}
+var UTime = []string{"0001-01-01T00:00:00Z", "2020-01-01T00:00:00Z", "2020-01-01T01:00:00+01:00", "2020-01-01T00:00:00.000000001Z", "2021-06-15T12:30:00.5Z", "1999-12-31T23:59:59-05:00", "1960-02-29T10:00:00Z",
+	// instants outside the range a count of nanoseconds since 1970 can express
+	"9999-12-31T23:59:59Z", "2300-01-01T00:00:00Z", "1600-01-01T00:00:00Z"}
 var URole = []string{"", "a", "b", "Bob", "r", "R", "10", "3"}
 var UNum = []string{"1", "3", "10", "9", "3.5", "-1", "007"}
 var UBiz = []string{"a", "b", "Hotel", "hotel", ""}
@@ -126,8 +130,9 @@ func GenDataset(t *rapid.T, maxPeople, maxPlaces int) *Dataset {
 		p.F["fa"] = genNullable(t, l+"_fa", func() Val { return FV(pick(t, l+"_fav", UFloat)) })
 		p.F["ba"] = genNullable(t, l+"_ba", func() Val { return BV(rapid.Bool().Draw(t, l+"_bav")) })
 		p.F["ta"] = genNullable(t, l+"_ta", func() Val { return TV(pick(t, l+"_tav", UTime)) })
-		p.F["boss"] = genNullable(t, l+"_boss", func() Val { return SV(pick(t, l+"_bossv", peopleRefs)) })
-		p.F["home"] = genNullable(t, l+"_home", func() Val { return SV(pick(t, l+"_homev", placeRefs)) })
+		// (a reference may also be stored as the empty string, which names nothing)
+		p.F["boss"] = genNullable(t, l+"_boss", func() Val { return SV(pick(t, l+"_bossv", append(append([]string{}, peopleRefs...), ""))) })
+		p.F["home"] = genNullable(t, l+"_home", func() Val { return SV(pick(t, l+"_homev", append(append([]string{}, placeRefs...), ""))) })
 		p.Roles = genSubset(t, l+"_roles", URole, 4)
 		p.Nums = genSubset(t, l+"_nums", UNum, 4)
 		p.Places = genSubset(t, l+"_places", placeRefs, 3)
